@@ -95,6 +95,14 @@ func (e *Extractor) clone() *Extractor {
 	return newExt
 }
 
+// resetWarnings starts the warning list of one operation. The warnings an
+// operation returns are those of that operation: without this they piled up on
+// the Extractor, so a second Text() returned the first call's warning twice,
+// and an Extractor derived afterwards inherited them all.
+func (e *Extractor) resetWarnings() {
+	e.warnings = nil
+}
+
 // ensureReader opens the reader if not already open.
 func (e *Extractor) ensureReader() error {
 	if e.readerOpened {
@@ -560,6 +568,7 @@ func (e *Extractor) Text() (string, []Warning, error) {
 	if err != nil {
 		return "", nil, err
 	}
+	e.resetWarnings()
 
 	// Collect requested page data
 	requestedPages := make([]extractedPage, 0, len(pageIndices))
@@ -874,6 +883,7 @@ func (e *Extractor) Fragments() ([]text.TextFragment, []Warning, error) {
 	if err != nil {
 		return nil, nil, err
 	}
+	e.resetWarnings()
 
 	var allFragments []text.TextFragment
 	for i, pageNum := range pageIndices {
@@ -1586,6 +1596,7 @@ func (e *Extractor) Document() (*model.Document, []Warning, error) {
 	if len(pageIndices) == 0 {
 		return nil, nil, fmt.Errorf("no pages to process")
 	}
+	e.resetWarnings()
 
 	// Create new document
 	doc := model.NewDocument()
